@@ -649,12 +649,12 @@ func enumAddresses(tier string) int {
 	if tier == "thorough" {
 		return 20000
 	}
-	return 300
+	return 600
 }
 
 func TestStrings(t *testing.T) {
 	pbt.Run(t, pbt.Sub[Str]{
-		Name: "strings", Quick: 500000, Thorough: 12000000,
+		Name: "strings", Quick: 1000000, Thorough: 12000000,
 		EnumDesc: fmt.Sprintf("complete neighbourhood of %d (quick) / %d (thorough) derived addresses (hashes with 0..3 leading zero bytes, both networks): every single-character substitution by the 57 other alphabet characters and by 5 non-alphabet characters, every deletion, every adjacent transposition, every insertion of every alphabet character at every position, all 256 version bytes with recomputed and with kept checksum, payload lengths 0..40, runs of '1'", enumAddresses("quick"), enumAddresses("thorough")),
 		Enum: func(tier string, yield func(Str)) {
 			n := enumAddresses(tier)
